@@ -222,7 +222,7 @@ func runC17(c *Ctx) {
 			for _, fct := range cg.Facts(h.Loc) {
 				ast.Inspect(fct.Expr, func(n ast.Node) bool {
 					if id, ok := n.(*ast.Ident); ok {
-						if v, isVar := sinfo.Uses[id].(*types.Var); isVar && !v.IsField() && v.Name() != "req" {
+						if v, isVar := sinfo.Uses[id].(*types.Var); isVar && !v.IsField() && !strings.HasSuffix(core.ObjNameOfType(v.Type()), "Request") {
 							bad = core.ExprString(fct.Expr)
 						}
 					}
@@ -396,8 +396,21 @@ func runC17(c *Ctx) {
 		nRet := 0
 		for _, ex := range g.Returns() {
 			for _, a := range g.AtomsAt(ex.Loc) {
-				s := core.ExprString(a.Expr)
-				if a.Val && (strings.Contains(s, "errorResponse.Error != \"\"") || strings.Contains(s, "err != nil")) {
+				if !a.Val {
+					continue
+				}
+				isErrEdge := false
+				if x, eq, isNil := core.IsNilCheck(ainfo, a.Expr); isNil && !eq {
+					if t := ainfo.TypeOf(x); t != nil && t.String() == "error" {
+						isErrEdge = true
+					}
+				}
+				if be, isB := ast.Unparen(a.Expr).(*ast.BinaryExpr); isB && be.Op == token.NEQ && selName(be.X) == "Error" {
+					if v, isS := core.ConstString(ainfo, be.Y); isS && v == "" {
+						isErrEdge = true // the server's error object
+					}
+				}
+				if isErrEdge {
 					nRet++
 					break
 				}
